@@ -10,7 +10,7 @@ usage: mutrun.py <mutants.jsonl> [--workers N] [--only-file substr] [--stage1-on
 import json, os, subprocess, sys, threading, queue, time, shutil
 
 ENV = dict(os.environ, GOFLAGS="-mod=mod", GOPROXY="off", GOSUMDB="off", GOTOOLCHAIN="local")
-OUT = "/verif/mutation/results.jsonl"
+OUT = os.environ.get("MUT_OUT", "/verif/mutation/results.jsonl")
 VERIF = os.environ.get("MUT_VERIF", "/verif")
 ALL = ["C%02d" % i for i in range(1, 19)]
 
@@ -62,7 +62,7 @@ def record(r):
         print(r["id"], r["file"], r["line"], r["kind"], repr(r["orig"][:30]), "->", repr(r["repl"][:30]), "::", tag, r.get("caught_by", ""), flush=True)
 
 def worker(k, q, stage1_only):
-    wt = f"/tmp/mut/w{k}"
+    wt = f"/tmp/mut/{os.environ.get('MUT_TAG', 'w')}{k}"
     sh(f"git -C /repo worktree remove --force {wt}")
     shutil.rmtree(wt, ignore_errors=True)
     rc, out = sh(f"git -C /repo worktree add -q --detach {wt} HEAD")
@@ -126,11 +126,13 @@ def main():
     args = sys.argv[1:]
     ms = [json.loads(l) for l in open(args[0])]
     workers, only, stage1, limit = 4, None, False, None
+    ids = None
     for i, a in enumerate(args):
         if a == "--workers": workers = int(args[i + 1])
         if a == "--only-file": only = args[i + 1]
         if a == "--stage1-only": stage1 = True
         if a == "--limit": limit = int(args[i + 1])
+        if a == "--ids": ids = set(args[i + 1].split(","))
     os.makedirs(os.path.dirname(OUT), exist_ok=True)
     done = set()
     if os.path.exists(OUT):
@@ -146,6 +148,8 @@ def main():
         if (m["file"], m["start"], m["end"], m["repl"]) in done:
             continue
         if only and only not in m["file"]:
+            continue
+        if ids is not None and m["id"] not in ids:
             continue
         q.put(m)
         n += 1
